@@ -126,6 +126,8 @@ impl AggregatedMetric {
                 *v1 = if res >= 0 {
                     res as usize
                 } else {
+                    #[cfg(feature = "verif-hooks")]
+                    crate::verif::count(&format!("gauge_underflow.{key}"), 1);
                     error!(
                         "local drain metric {} underflow: previous value: {}, adding: {}",
                         key, before, v2
